@@ -1,1 +1,623 @@
-//! (module owned by its property check; see HARNESS_GUIDE.md)
+//! Reference filter ENCODERS for C09, written from the definitions (PNG 1.2 §6 filter types,
+//! Adobe ASCII base-85 as in ISO 32000-1 §7.4.3, LZW as in ISO 32000-1 §7.4.4 / TIFF 6.0 §13,
+//! RFC 1950/1951 stored blocks). They never call lopdf. The tiny decoders at the end exist only
+//! so that the encoders can be self-tested (`self_test`) before any verdict relies on them.
+
+// ---------------------------------------------------------------------------------------------
+// PNG row filters (PNG spec: Filt(x) = Orig(x) - Predictor(Orig(a), Orig(b), Orig(c)) mod 256,
+// a = byte of the pixel to the left, b = byte above, c = byte above-left; bytes outside the
+// image are 0; the first row's "above" row is all zero).
+
+pub const PNG_NONE: u8 = 0;
+pub const PNG_SUB: u8 = 1;
+pub const PNG_UP: u8 = 2;
+pub const PNG_AVG: u8 = 3;
+pub const PNG_PAETH: u8 = 4;
+
+/// PaethPredictor of the PNG specification, literally.
+pub fn paeth(a: u8, b: u8, c: u8) -> u8 {
+    let p = a as i32 + b as i32 - c as i32;
+    let pa = (p - a as i32).abs();
+    let pb = (p - b as i32).abs();
+    let pc = (p - c as i32).abs();
+    if pa <= pb && pa <= pc {
+        a
+    } else if pb <= pc {
+        b
+    } else {
+        c
+    }
+}
+
+/// The predictor value for one byte (filter type 0..4).
+pub fn png_predict(ft: u8, a: u8, b: u8, c: u8) -> u8 {
+    match ft {
+        PNG_NONE => 0,
+        PNG_SUB => a,
+        PNG_UP => b,
+        PNG_AVG => ((a as u32 + b as u32) / 2) as u8,
+        PNG_PAETH => paeth(a, b, c),
+        _ => panic!("refcodec: PNG filter type {} does not exist", ft),
+    }
+}
+
+/// Filter one row of original bytes `cur` given the original bytes of the row above; appends the
+/// filter-type byte and the filtered bytes to `out`.
+pub fn png_encode_row(ft: u8, bpp: usize, prev: &[u8], cur: &[u8], out: &mut Vec<u8>) {
+    out.push(ft);
+    for i in 0..cur.len() {
+        let a = if i >= bpp { cur[i - bpp] } else { 0 };
+        let b = prev[i];
+        let c = if i >= bpp { prev[i - bpp] } else { 0 };
+        out.push(cur[i].wrapping_sub(png_predict(ft, a, b, c)));
+    }
+}
+
+/// Encode `data` (rows of `row_bytes` bytes) with the given filter type per row.
+pub fn png_encode_frame(data: &[u8], row_bytes: usize, bpp: usize, row_filters: &[u8]) -> Vec<u8> {
+    assert!(row_bytes > 0 && data.len() == row_bytes * row_filters.len(), "refcodec: frame geometry");
+    let mut out = Vec::with_capacity(data.len() + row_filters.len());
+    let zero = vec![0u8; row_bytes];
+    for (r, ft) in row_filters.iter().enumerate() {
+        let cur = &data[r * row_bytes..(r + 1) * row_bytes];
+        let prev = if r == 0 { &zero[..] } else { &data[(r - 1) * row_bytes..r * row_bytes] };
+        png_encode_row(*ft, bpp, prev, cur, &mut out);
+    }
+    out
+}
+
+/// Reference decoder (self-test only).
+pub fn png_decode_frame(enc: &[u8], row_bytes: usize, bpp: usize) -> Result<Vec<u8>, String> {
+    if enc.len() % (row_bytes + 1) != 0 {
+        return Err("truncated row".into());
+    }
+    let rows = enc.len() / (row_bytes + 1);
+    let mut out: Vec<u8> = Vec::with_capacity(rows * row_bytes);
+    for r in 0..rows {
+        let ft = enc[r * (row_bytes + 1)];
+        if ft > 4 {
+            return Err("bad filter type".into());
+        }
+        let f = &enc[r * (row_bytes + 1) + 1..(r + 1) * (row_bytes + 1)];
+        for i in 0..row_bytes {
+            let a = if i >= bpp { out[r * row_bytes + i - bpp] } else { 0 };
+            let b = if r > 0 { out[(r - 1) * row_bytes + i] } else { 0 };
+            let c = if r > 0 && i >= bpp { out[(r - 1) * row_bytes + i - bpp] } else { 0 };
+            out.push(f[i].wrapping_add(png_predict(ft, a, b, c)));
+        }
+    }
+    Ok(out)
+}
+
+/// Bytes per complete pixel, rounded up to 1 (PNG) for `colors` components of `bpc` bits.
+pub fn png_bpp(colors: usize, bpc: usize) -> usize {
+    (colors * bpc).div_ceil(8).max(1)
+}
+
+/// Bytes per row.
+pub fn png_row_bytes(colors: usize, bpc: usize, columns: usize) -> usize {
+    (colors * bpc * columns).div_ceil(8)
+}
+
+// ---------------------------------------------------------------------------------------------
+// ASCII base-85 (Adobe): 4 bytes b1..b4 -> value b1*256^3+..+b4 -> 5 digits base 85, most
+// significant first, each + '!'. An all-zero full group is written `z`. A final partial group of
+// n bytes (1..3) is padded with zero bytes, converted WITHOUT the z special case, and only the
+// first n+1 characters are written. The data ends with `~>`.
+
+/// Append the encoding of one full group.
+#[inline]
+pub fn a85_group(v: u32, use_z: bool, out: &mut Vec<u8>) {
+    if v == 0 && use_z {
+        out.push(b'z');
+        return;
+    }
+    let mut d = [0u8; 5];
+    let mut x = v;
+    for k in (0..5).rev() {
+        d[k] = (x % 85) as u8 + b'!';
+        x /= 85;
+    }
+    out.extend_from_slice(&d);
+}
+
+/// Body without the EOD marker.
+pub fn a85_encode_body(data: &[u8], use_z: bool) -> Vec<u8> {
+    let mut out = Vec::with_capacity(data.len() / 4 * 5 + 8);
+    let mut it = data.chunks_exact(4);
+    for g in &mut it {
+        a85_group(u32::from_be_bytes([g[0], g[1], g[2], g[3]]), use_z, &mut out);
+    }
+    let rest = it.remainder();
+    if !rest.is_empty() {
+        let mut g = [0u8; 4];
+        g[..rest.len()].copy_from_slice(rest);
+        let mut tmp = Vec::with_capacity(5);
+        a85_group(u32::from_be_bytes(g), false, &mut tmp);
+        out.extend_from_slice(&tmp[..rest.len() + 1]);
+    }
+    out
+}
+
+pub fn a85_encode(data: &[u8]) -> Vec<u8> {
+    let mut out = a85_encode_body(data, true);
+    out.extend_from_slice(b"~>");
+    out
+}
+
+/// Reference decoder (self-test only): strict, white-space = the six PDF white-space bytes.
+pub fn a85_decode(enc: &[u8]) -> Result<Vec<u8>, String> {
+    let mut out = vec![];
+    let mut grp: Vec<u8> = vec![];
+    let mut i = 0;
+    loop {
+        if i >= enc.len() {
+            return Err("missing EOD".into());
+        }
+        let c = enc[i];
+        i += 1;
+        match c {
+            0 | 9 | 10 | 12 | 13 | 32 => continue,
+            b'~' => {
+                if enc.get(i) != Some(&b'>') {
+                    return Err("~ without >".into());
+                }
+                break;
+            }
+            b'z' => {
+                if !grp.is_empty() {
+                    return Err("z inside a group".into());
+                }
+                out.extend_from_slice(&[0, 0, 0, 0]);
+            }
+            b'!'..=b'u' => {
+                grp.push(c - b'!');
+                if grp.len() == 5 {
+                    let v = grp.iter().fold(0u64, |a, d| a * 85 + *d as u64);
+                    if v > u32::MAX as u64 {
+                        return Err("group value >= 2^32".into());
+                    }
+                    out.extend_from_slice(&(v as u32).to_be_bytes());
+                    grp.clear();
+                }
+            }
+            _ => return Err(format!("illegal byte {:#x}", c)),
+        }
+    }
+    if grp.len() == 1 {
+        return Err("final group of one character".into());
+    }
+    if !grp.is_empty() {
+        let n = grp.len();
+        while grp.len() < 5 {
+            grp.push(84);
+        }
+        let v = grp.iter().fold(0u64, |a, d| a * 85 + *d as u64);
+        if v > u32::MAX as u64 {
+            return Err("final group value >= 2^32".into());
+        }
+        out.extend_from_slice(&(v as u32).to_be_bytes()[..n - 1]);
+    }
+    Ok(out)
+}
+
+// ---------------------------------------------------------------------------------------------
+// LZW (ISO 32000-1 §7.4.4.2, TIFF 6.0 §13): codes 0..255 literal, 256 clear-table, 257 EOD, new
+// entries from 258; codes packed MSB first, 9 bits initially; at most 12 bits, entry 4095 is the
+// last. With EarlyChange 1 (default) "the first output code that is 10 bits long shall be the
+// one following the creation of table entry 511" (1023 -> 11, 2047 -> 12); with EarlyChange 0
+// the increase is postponed as long as possible, i.e. it follows the creation of entry 512
+// (1024, 2048). Every emitted code counts towards that decision, also the last one before EOD
+// or clear-table (TIFF 6.0 p.60), because the decoder adds an entry when it reads it.
+// The encoder begins with clear-table and emits clear-table when the table is full:
+// EarlyChange 1 after creating entry 4094 (TIFF: "as soon as we use entry 4094"), EarlyChange 0
+// after creating entry 4095. `clear_after` may name an earlier entry (a clear-table code is legal
+// at any time).
+
+#[derive(Clone, Copy, Debug, PartialEq)]
+pub struct LzwOpts {
+    pub early_change: bool,
+    /// emit clear-table right after creating this entry (None = the default for the mode)
+    pub clear_after: Option<u16>,
+}
+
+impl LzwOpts {
+    pub fn new(early_change: bool) -> Self {
+        LzwOpts { early_change, clear_after: None }
+    }
+    fn clear_entry(&self) -> u16 {
+        let max = if self.early_change { 4094 } else { 4095 };
+        self.clear_after.map(|c| c.clamp(258, max)).unwrap_or(max)
+    }
+}
+
+struct BitWriter {
+    out: Vec<u8>,
+    acc: u32,
+    nbits: u32,
+}
+
+impl BitWriter {
+    fn put(&mut self, code: u16, width: u32) {
+        debug_assert!((code as u32) < (1 << width));
+        self.acc = (self.acc << width) | code as u32;
+        self.nbits += width;
+        while self.nbits >= 8 {
+            self.out.push((self.acc >> (self.nbits - 8)) as u8);
+            self.nbits -= 8;
+        }
+        self.acc &= (1 << self.nbits) - 1;
+    }
+    fn finish(mut self) -> Vec<u8> {
+        if self.nbits > 0 {
+            self.out.push((self.acc << (8 - self.nbits)) as u8);
+        }
+        self.out
+    }
+}
+
+/// Statistics of one encoding (used to show that the long inputs reach what they are meant to).
+#[derive(Default, Clone, Debug)]
+pub struct LzwStats {
+    pub codes: u64,
+    pub clears: u64,
+    pub max_width: u32,
+    pub max_entry: u16,
+    /// codes emitted that were the most recently created entry (decoder sees code == next free)
+    pub newest_entry_codes: u64,
+    /// input length at which entry e was created, for the first pass through the table
+    pub created_at: Vec<(u16, usize)>,
+}
+
+pub fn lzw_encode(data: &[u8], opts: LzwOpts) -> Vec<u8> {
+    lzw_encode_stats(data, opts, false).0
+}
+
+pub fn lzw_encode_stats(data: &[u8], opts: LzwOpts, trace: bool) -> (Vec<u8>, LzwStats) {
+    let mut st = LzwStats::default();
+    let mut bw = BitWriter { out: Vec::with_capacity(data.len() / 2 + 16), acc: 0, nbits: 0 };
+    // child[(w << 8) | c] = code of string(w)+c, 0 = none
+    let mut child: Vec<u16> = vec![0; 4096 * 256];
+    let mut used: Vec<u32> = Vec::with_capacity(4096);
+    let mut width: u32 = 9;
+    let mut next: u16 = 258;
+    let clear_entry = opts.clear_entry();
+    let bump = |added: u16, width: &mut u32| {
+        let lim: u32 = if opts.early_change { (1u32 << *width) - 1 } else { 1u32 << *width };
+        if added as u32 == lim && *width < 12 {
+            *width += 1;
+        }
+    };
+    bw.put(256, width);
+    st.codes += 1;
+    st.max_width = 9;
+    if data.is_empty() {
+        bw.put(257, width);
+        return (bw.finish(), st);
+    }
+    let mut w: u16 = data[0] as u16;
+    let mut first_pass = true;
+    for (i, &c) in data.iter().enumerate().skip(1) {
+        let key = ((w as u32) << 8) | c as u32;
+        let k = child[key as usize];
+        if k != 0 {
+            w = k;
+            continue;
+        }
+        bw.put(w, width);
+        st.codes += 1;
+        if next > 258 && w == next - 1 {
+            st.newest_entry_codes += 1;
+        }
+        child[key as usize] = next;
+        used.push(key);
+        let added = next;
+        next += 1;
+        st.max_entry = st.max_entry.max(added);
+        if trace && first_pass {
+            st.created_at.push((added, i));
+        }
+        bump(added, &mut width);
+        st.max_width = st.max_width.max(width);
+        if added == clear_entry {
+            bw.put(256, width);
+            st.codes += 1;
+            st.clears += 1;
+            for k in used.drain(..) {
+                child[k as usize] = 0;
+            }
+            next = 258;
+            width = 9;
+            first_pass = false;
+        }
+        w = c as u16;
+    }
+    bw.put(w, width);
+    st.codes += 1;
+    if next > 258 && w == next - 1 {
+        st.newest_entry_codes += 1;
+    }
+    // the decoder adds an entry on reading this code: it counts towards the width decision
+    bump(next, &mut width);
+    st.max_width = st.max_width.max(width);
+    bw.put(257, width);
+    (bw.finish(), st)
+}
+
+/// Reference decoder (self-test only), written from the same definition from the decoder's side:
+/// the decoder is one entry behind the encoder, so it widens after ITS entry 510 (EarlyChange 1)
+/// or 511 (EarlyChange 0).
+pub fn lzw_decode(enc: &[u8], early_change: bool) -> Result<Vec<u8>, String> {
+    let mut out: Vec<u8> = vec![];
+    let mut prefix: Vec<u16> = vec![0; 4096];
+    let mut last: Vec<u8> = vec![0; 4096];
+    let mut first: Vec<u8> = vec![0; 4096];
+    for i in 0..256 {
+        last[i] = i as u8;
+        first[i] = i as u8;
+    }
+    let mut width = 9u32;
+    let mut next: usize = 258;
+    let mut prev: Option<u16> = None;
+    let mut bitpos: usize = 0;
+    let emit = |code: u16, prefix: &Vec<u16>, last: &Vec<u8>, out: &mut Vec<u8>| {
+        let start = out.len();
+        let mut c = code;
+        loop {
+            out.push(last[c as usize]);
+            if c < 256 {
+                break;
+            }
+            c = prefix[c as usize];
+        }
+        out[start..].reverse();
+    };
+    loop {
+        if bitpos + width as usize > enc.len() * 8 {
+            return Err("ran out of data before EOD".into());
+        }
+        let mut code: u32 = 0;
+        for k in 0..width as usize {
+            let b = bitpos + k;
+            code = (code << 1) | ((enc[b / 8] >> (7 - b % 8)) & 1) as u32;
+        }
+        bitpos += width as usize;
+        let code = code as u16;
+        if code == 256 {
+            width = 9;
+            next = 258;
+            prev = None;
+            continue;
+        }
+        if code == 257 {
+            break;
+        }
+        match prev {
+            None => {
+                if code > 255 {
+                    return Err("first code after clear is not a literal".into());
+                }
+                out.push(code as u8);
+            }
+            Some(p) => {
+                if (code as usize) < next || code < 256 {
+                    if next < 4096 {
+                        prefix[next] = p;
+                        first[next] = first[p as usize];
+                        last[next] = first[code as usize];
+                    }
+                    emit(code, &prefix, &last, &mut out);
+                } else if code as usize == next && next < 4096 {
+                    prefix[next] = p;
+                    first[next] = first[p as usize];
+                    last[next] = first[p as usize];
+                    emit(code, &prefix, &last, &mut out);
+                } else {
+                    return Err(format!("code {} beyond the table ({})", code, next));
+                }
+                if next < 4096 {
+                    next += 1;
+                }
+                let lim = if early_change { (1usize << width) - 1 } else { 1usize << width };
+                if next == lim && width < 12 {
+                    width += 1;
+                }
+            }
+        }
+        prev = Some(code);
+    }
+    if enc.len() * 8 - bitpos >= 8 {
+        return Err("more than 7 padding bits after EOD".into());
+    }
+    Ok(out)
+}
+
+// ---------------------------------------------------------------------------------------------
+// zlib (RFC 1950) with stored deflate blocks (RFC 1951 §3.2.4) and Adler-32.
+
+pub fn adler32(data: &[u8]) -> u32 {
+    let (mut a, mut b) = (1u32, 0u32);
+    for chunk in data.chunks(5552) {
+        for &x in chunk {
+            a += x as u32;
+            b += a;
+        }
+        a %= 65521;
+        b %= 65521;
+    }
+    (b << 16) | a
+}
+
+/// zlib stream made of stored blocks of at most `block` (1..=65535) bytes.
+pub fn zlib_stored(data: &[u8], block: usize) -> Vec<u8> {
+    let block = block.clamp(1, 65535);
+    let mut out = Vec::with_capacity(data.len() + data.len() / block * 5 + 16);
+    out.extend_from_slice(&[0x78, 0x01]);
+    if data.is_empty() {
+        out.extend_from_slice(&[0x01, 0x00, 0x00, 0xff, 0xff]);
+    }
+    let n = data.len().div_ceil(block);
+    for (i, ch) in data.chunks(block).enumerate() {
+        out.push(if i + 1 == n { 1 } else { 0 });
+        let len = ch.len() as u16;
+        out.extend_from_slice(&len.to_le_bytes());
+        out.extend_from_slice(&(!len).to_le_bytes());
+        out.extend_from_slice(ch);
+    }
+    out.extend_from_slice(&adler32(data).to_be_bytes());
+    out
+}
+
+/// Second Flate encoder: flate2 (miniz_oxide) at a given level 0..9. Trusted primitive.
+pub fn zlib_flate2(data: &[u8], level: u32) -> Vec<u8> {
+    use std::io::Write;
+    let mut e = flate2::write::ZlibEncoder::new(Vec::new(), flate2::Compression::new(level));
+    e.write_all(data).expect("refcodec: flate2 write");
+    e.finish().expect("refcodec: flate2 finish")
+}
+
+/// Reference decoder for stored-block zlib streams (self-test only).
+pub fn zlib_stored_decode(enc: &[u8]) -> Result<Vec<u8>, String> {
+    if enc.len() < 6 || (enc[0] & 0x0f) != 8 || ((enc[0] as u32) << 8 | enc[1] as u32) % 31 != 0 || enc[1] & 0x20 != 0 {
+        return Err("bad zlib header".into());
+    }
+    let mut pos = 2;
+    let mut out = vec![];
+    loop {
+        if pos + 5 > enc.len() {
+            return Err("truncated block header".into());
+        }
+        let hdr = enc[pos];
+        if hdr & 0xfe != 0 {
+            return Err("not a stored block".into());
+        }
+        let len = u16::from_le_bytes([enc[pos + 1], enc[pos + 2]]);
+        let nlen = u16::from_le_bytes([enc[pos + 3], enc[pos + 4]]);
+        if len != !nlen {
+            return Err("LEN/NLEN".into());
+        }
+        pos += 5;
+        if pos + len as usize > enc.len() {
+            return Err("truncated block".into());
+        }
+        out.extend_from_slice(&enc[pos..pos + len as usize]);
+        pos += len as usize;
+        if hdr & 1 == 1 {
+            break;
+        }
+    }
+    if enc.len() != pos + 4 || enc[pos..] != adler32(&out).to_be_bytes() {
+        return Err("adler".into());
+    }
+    Ok(out)
+}
+
+// ---------------------------------------------------------------------------------------------
+
+fn lcg_bytes(seed: u32, n: usize, mask: u8) -> Vec<u8> {
+    let mut x = seed;
+    (0..n)
+        .map(|_| {
+            x = x.wrapping_mul(1664525).wrapping_add(1013904223);
+            ((x >> 24) as u8) & mask
+        })
+        .collect()
+}
+
+/// Self-test of every encoder against the reference decoders of this file and against fixed
+/// vectors from the defining documents. Returns the number of checks made.
+pub fn self_test() -> Result<u64, String> {
+    let mut n = 0u64;
+    // --- fixed vectors
+    // Adobe/Wikipedia ASCII85 example
+    if a85_encode(b"Man ") != b"9jqo^~>" || a85_encode(b"Man") != b"9jqo~>" || a85_encode(b"Ma") != b"9jn~>" || a85_encode(b"M") != b"9`~>" {
+        return Err("a85 vector 'Man '".into());
+    }
+    if a85_encode(&[0, 0, 0, 0]) != b"z~>" || a85_encode(&[0, 0, 0]) != b"!!!!~>" || a85_encode(&[0xff; 4]) != b"s8W-!~>" || a85_encode(b"") != b"~>" {
+        return Err("a85 vector zero/ff".into());
+    }
+    // ISO 32000-1 §7.4.4.2 example: 45 45 45 45 45 65 45 45 45 66 -> 80 0B 60 50 22 0C 0C 85 01
+    let iso = [45u8, 45, 45, 45, 45, 65, 45, 45, 45, 66];
+    for early in [true, false] {
+        if lzw_encode(&iso, LzwOpts::new(early)) != [0x80, 0x0B, 0x60, 0x50, 0x22, 0x0C, 0x0C, 0x85, 0x01] {
+            return Err("lzw ISO 32000 example".into());
+        }
+    }
+    // PNG spec Paeth: ties prefer a, then b
+    if paeth(10, 10, 10) != 10 || paeth(1, 2, 3) != 1 || paeth(0, 0, 255) != 0 || paeth(50, 100, 75) != 75 || paeth(100, 50, 75) != 75 {
+        return Err("paeth vectors".into());
+    }
+    if paeth(200, 100, 50) != 200 || paeth(100, 200, 50) != 200 || paeth(3, 5, 4) != 4 {
+        return Err("paeth vectors 2".into());
+    }
+    // Adler-32 of "Wikipedia" = 0x11E60398 (RFC 1950 algorithm)
+    if adler32(b"Wikipedia") != 0x11E60398 || adler32(b"") != 1 {
+        return Err("adler32 vector".into());
+    }
+    n += 12;
+    // --- round trips through the reference decoders
+    let mut plains: Vec<Vec<u8>> = vec![vec![], vec![0], vec![0; 9], (0..=255u8).collect(), b"hello hello hello hello".to_vec()];
+    plains.push(lcg_bytes(7, 5000, 0xff));
+    plains.push(lcg_bytes(9, 70000, 0x01));
+    plains.push(vec![b'a'; 70000]);
+    plains.push(lcg_bytes(11, 140000, 0xff));
+    for p in &plains {
+        for z in [true, false] {
+            let mut e = a85_encode_body(p, z);
+            e.extend_from_slice(b"~>");
+            if a85_decode(&e).as_deref() != Ok(&p[..]) {
+                return Err(format!("a85 round trip len {}", p.len()));
+            }
+        }
+        for early in [true, false] {
+            for ca in [None, Some(300u16), Some(511), Some(512), Some(4093)] {
+                let e = lzw_encode(p, LzwOpts { early_change: early, clear_after: ca });
+                match lzw_decode(&e, early) {
+                    Ok(d) if d == *p => {}
+                    other => return Err(format!("lzw round trip len {} early {} clear {:?}: {:?}", p.len(), early, ca, other.map(|d| d.len()))),
+                }
+            }
+        }
+        for blk in [1usize, 7, 65535] {
+            if p.len() > 5000 && blk < 100 {
+                continue;
+            }
+            if zlib_stored_decode(&zlib_stored(p, blk)).as_deref() != Ok(&p[..]) {
+                return Err(format!("zlib stored round trip len {}", p.len()));
+            }
+        }
+        // cross-check the stored encoder with an independent inflater (flate2)
+        {
+            use std::io::Read;
+            let mut d = vec![];
+            let enc = zlib_stored(p, 65535);
+            if flate2::read::ZlibDecoder::new(&enc[..]).read_to_end(&mut d).is_err() || d != *p {
+                return Err(format!("zlib stored vs flate2 inflate len {}", p.len()));
+            }
+        }
+        n += 2 + 10 + 3 + 1;
+    }
+    // PNG: all filter types, several bpp, round trip + pointwise definition
+    let data = lcg_bytes(3, 3 * 48, 0xff);
+    for bpp in [1usize, 2, 3, 4, 6, 8] {
+        for f0 in 0..5u8 {
+            for f1 in 0..5u8 {
+                let e = png_encode_frame(&data, 48, bpp, &[f0, f1, (f0 + f1) % 5]);
+                if png_decode_frame(&e, 48, bpp).as_deref() != Ok(&data[..]) {
+                    return Err(format!("png round trip bpp {} filters {} {}", bpp, f0, f1));
+                }
+                n += 1;
+            }
+        }
+    }
+    // early/late must actually differ once entry 511 exists
+    let p = lcg_bytes(5, 600, 0xff);
+    if lzw_encode(&p, LzwOpts::new(true)) == lzw_encode(&p, LzwOpts::new(false)) {
+        return Err("EarlyChange has no effect".into());
+    }
+    if lzw_decode(&lzw_encode(&p, LzwOpts::new(true)), false).as_deref() == Ok(&p[..]) {
+        return Err("reference LZW decoder ignores EarlyChange".into());
+    }
+    n += 2;
+    Ok(n)
+}
